@@ -149,6 +149,7 @@ structure Inv (c : Cfg) (s : State) : Prop where
   wokenReady : ∀ x, 1 ≤ s.woken x → s.slot = Slot.ready
   resHeld : ∀ t, kindOf c t = Kind.res → s.held t = 0
   aProg : ∀ t, postCtor (s.pc t) = true → s.constructed = true
+  aPre : s.constructed = false → ∀ t, t < c.n → kindOf c t = Kind.handle → (s.pc t = Pc.hStart ∨ s.pc t = Pc.hGate)
 
 macro "inv_facts" h:ident : tactic => `(tactic| (
   have := ($h).pcok
@@ -188,7 +189,8 @@ macro "inv_facts" h:ident : tactic => `(tactic| (
   have := ($h).flagIff
   have := ($h).wokenReady
   have := ($h).resHeld
-  have := ($h).aProg))
+  have := ($h).aProg
+  have := ($h).aPre))
 
 macro "inv_auto" h:ident : tactic => `(tactic| (
   constructor
@@ -229,7 +231,8 @@ macro "inv_auto" h:ident : tactic => `(tactic| (
   case flagIff => first | exact ($h).flagIff | (have := ($h).flagIff; grind [upd, pcOK, preClaim, preResolve, isCtor, inflight, ownsCtx, postCtor]) | (inv_facts $h; grind [upd, pcOK, preClaim, preResolve, isCtor, inflight, ownsCtx, postCtor]) | fail "clause flagIff"
   case wokenReady => first | exact ($h).wokenReady | (have := ($h).wokenReady; grind [upd, pcOK, preClaim, preResolve, isCtor, inflight, ownsCtx, postCtor]) | (inv_facts $h; grind [upd, pcOK, preClaim, preResolve, isCtor, inflight, ownsCtx, postCtor]) | fail "clause wokenReady"
   case resHeld => first | exact ($h).resHeld | (have := ($h).resHeld; grind [upd, pcOK, preClaim, preResolve, isCtor, inflight, ownsCtx, postCtor]) | (inv_facts $h; grind [upd, pcOK, preClaim, preResolve, isCtor, inflight, ownsCtx, postCtor]) | fail "clause resHeld"
-  case aProg => first | exact ($h).aProg | (have := ($h).aProg; grind [upd, pcOK, preClaim, preResolve, isCtor, inflight, ownsCtx, postCtor]) | (inv_facts $h; grind [upd, pcOK, preClaim, preResolve, isCtor, inflight, ownsCtx, postCtor]) | fail "clause aProg"))
+  case aProg => first | exact ($h).aProg | (have := ($h).aProg; grind [upd, pcOK, preClaim, preResolve, isCtor, inflight, ownsCtx, postCtor]) | (inv_facts $h; grind [upd, pcOK, preClaim, preResolve, isCtor, inflight, ownsCtx, postCtor]) | fail "clause aProg"
+  case aPre => first | exact ($h).aPre | (have := ($h).aPre; grind [upd, pcOK, preClaim, preResolve, isCtor, inflight, ownsCtx, postCtor]) | (inv_facts $h; grind [upd, pcOK, preClaim, preResolve, isCtor, inflight, ownsCtx, postCtor]) | fail "clause aPre"))
 
 variable {c : Cfg} {s : State} {t : Nat}
 
